@@ -11,31 +11,31 @@ and labelled so in the manifest): fmt(fmt t) = fmt t, and that the formatted tex
 re-tokenizes to the same tokens (needs tokenizer ∘ parser ∘ render as one object).
 -/
 import Emboss.Lemmas.FmtSanity
+import Emboss.Lemmas.FmtTable
 namespace Emboss.Fmt
 open Emboss.Generated.FmtTable
 
-/-! ## The regenerated table
+/-! ## The regenerated table -/
 
-`tableTyped formatters` (Spec/Fmt.lean) says, over the *whole* regenerated registry:
-every handler name is known to the model and registered with the calling convention it
-declares (`_formats` vs `_formats_with_config`); at the kinds of its production's
-right-hand side every handler is typed and yields the kind of the left-hand side; every
-argument a handler ignores is a layout terminal; no production rewrites a layout terminal.
-`tableMatchesGrammar` is `_check_productions` (the registered productions are pairwise
-distinct and are exactly `module_ir.PRODUCTIONS`).
+/-- Tie T, decided in the kernel over the *whole* regenerated registry:
+(1) every handler name is one the model knows and is registered through the decorator
+that passes the arguments it declares (`_formats` vs `_formats_with_config`);
+(2) at the kinds of its production's right-hand side every handler is typed by
+`Handler.sig` and yields the kind of the left-hand side;
+(3) every argument position a handler ignores holds a layout terminal in that production,
+and no production rewrites a layout terminal;
+(4) the registered productions are exactly `module_ir.PRODUCTIONS`, in the same order
+(`_check_productions`; the translator emits the registry in grammar order);
+(5) the start symbol yields a string.
+Adding or changing a production or a handler re-opens this.
 
-Both are *decidable and executable*; deciding them in the kernel costs minutes (≈ 10⁵
-string comparisons; kernel `String` equality re-encodes literals), so — as DESIGN §2
-allows for tables that are not small — the theorems below take `tableTyped formatters`
-as a hypothesis and every run evaluates it with the compiled checker (driver op
-`TABLE`); a `false` there re-opens the obligation.  The cheap part (all handler names
-resolve, with the right calling convention) is also decided in the kernel. -/
-
-/-- Tie T (kernel part): every registered handler is one the model knows, registered
-through the decorator that passes the arguments it declares. -/
-theorem C11_table_resolves :
-    formatters.all (fun e => (resolve e).isSome) = true ∧ kindOf startSymbol = .str := by
-  decide +kernel
+(Evaluated on the interned copy `formattersN` of the table — kinds and layout flags of the
+symbols are computed once, the rest is arithmetic — and transported to the table of
+strings by `tableTypedN_sound`; the interned copy is checked to decode to `formatters`.) -/
+theorem C11_table_ok :
+    tableTyped formatters = true ∧ formatters.map prodOf = grammar ∧ kindOf startSymbol = .str :=
+  ⟨tableTypedN_sound symbols formattersN formatters (by decide +kernel) (by decide +kernel),
+   by decide +kernel, by decide +kernel⟩
 
 /-! ## Totality -/
 
@@ -44,25 +44,20 @@ are terminals, no comment after documentation on a doc line — which the tokeni
 guarantees — ) the fold is defined at every node: the handler of every production
 exists, takes the number and kinds of arguments it is given, and none of the modelled
 `assert`s (`not comment`, `len(row_types) < 3`, `len(row.columns) < 2`, non-empty `if`
-body) fails; the module handler returns a text.
-
-Hypothesis `layoutBlank` (Indent/Dedent/newline tokens carry only blanks, true of every
-token stream of the tokenizer) is an artefact of proving totality and content in one
-induction; totality itself does not depend on token texts. -/
-theorem C11_total (ht : tableTyped formatters = true) (iw : Nat) (t : Tree)
-    (hw : wf formatters t = true) (hl : layoutBlank t = true)
-    (hroot : rootSym formatters t = startSymbol) :
+body) fails; the module handler returns a text.  No assumption on token texts. -/
+theorem C11_total (iw : Nat) (t : Tree)
+    (hw : wf formatters t = true) (hroot : rootSym formatters t = startSymbol) :
     ∃ out, formatTree iw t = some (.str out) := by
-  obtain ⟨v, hv, hk, _⟩ := fold_ok formatters iw ht t hw hl
-  rw [hroot, C11_table_resolves.2] at hk
+  obtain ⟨v, hv, hk, _⟩ := fold_ok formatters iw C11_table_ok.1 t hw
+  rw [hroot, C11_table_ok.2.2] at hk
   obtain ⟨s, rfl⟩ := hk
   exact ⟨s, hv⟩
 
 /-- The same for every subtree, with the kind of value it yields. -/
-theorem C11_total_subtree (ht : tableTyped formatters = true) (iw : Nat) (t : Tree)
-    (hw : wf formatters t = true) (hl : layoutBlank t = true) :
+theorem C11_total_subtree (iw : Nat) (t : Tree)
+    (hw : wf formatters t = true) :
     ∃ v, fold formatters iw t = some v ∧ HasKind v (kindOf (rootSym formatters t)) := by
-  obtain ⟨v, hv, hk, _⟩ := fold_ok formatters iw ht t hw hl
+  obtain ⟨v, hv, hk, _⟩ := fold_ok formatters iw C11_table_ok.1 t hw
   exact ⟨v, hv, hk⟩
 
 /-! ## Token preservation -/
@@ -72,17 +67,21 @@ is the concatenation of the blank-erased texts of the tree's non-layout leaves, 
 order: no token is dropped, duplicated, reordered or altered, in any production, at
 any indent width; trailing blanks of comments/documentation may go (they are blanks).
 
+Hypothesis `layoutBlank`: Indent/Dedent/newline tokens carry only blanks (Indent = the
+leading white space, Dedent = "", newline = "\n"), as in every tokenizer output; the
+handlers drop exactly these tokens (`dropOK`, part of `tableTyped`).
+
 (Stated on characters, not on token boundaries: that two adjacent tokens stay two
-tokens is `C11_render_separable_partial` + the correspondence.) -/
-theorem C11_tokens_preserved (ht : tableTyped formatters = true) (iw : Nat) (t : Tree)
+tokens is the `gluedOK` obligation of Spec/Fmt.lean + the correspondence.) -/
+theorem C11_tokens_preserved (iw : Nat) (t : Tree)
     (hw : wf formatters t = true)
     (hl : layoutBlank t = true) (hroot : rootSym formatters t = startSymbol) :
     ∃ out, formatTree iw t = some (.str out) ∧
       despace out = despace (contentLeaves t).flatten := by
-  obtain ⟨v, hv, hk, hc⟩ := fold_ok formatters iw ht t hw hl
-  rw [hroot, C11_table_resolves.2] at hk
+  obtain ⟨v, hv, hk, hc⟩ := fold_ok formatters iw C11_table_ok.1 t hw
+  rw [hroot, C11_table_ok.2.2] at hk
   obtain ⟨s, rfl⟩ := hk
-  exact ⟨s, hv, by rw [← leaves_content_eq t hl]; exact hc⟩
+  exact ⟨s, hv, by rw [← leaves_content_eq t hl]; exact hc hl⟩
 
 /-! Non-vacuity: the parse tree of "-- hi  \n# c\n" (a documentation line with trailing
 blanks followed by a comment line), built by looking the productions up in the live
